@@ -15,8 +15,121 @@ import re
 import shutil
 import tempfile
 
-from .. import build, common as C, mutate as M, schema as S
+from .. import build, common as C, mutate as M, schema as S, split as SP
 from ..findings import Report
+
+
+def cross_file_fixtures(sc):
+    """Names must be unique across *all* files of a schema: the same type (also with different letter case) or message
+    (name, id) defined in the main file and in an included one, in either order, or in two included files, is a
+    duplicate; a fresh name in an included file is fine."""
+    xml = sc.to_xml()
+    tn = next((t.name for t in sc.types if t.kind == "type" and not t.name[0].isdigit()), None)
+    if tn is None or not sc.messages or "    <types>\n" not in xml:
+        return []
+    pro = SP.PROLOG
+    xi = xml.replace("<sbe:messageSchema", "<sbe:messageSchema" + SP.XI, 1)
+    inc = '    <xi:include href="%s"/>\n'
+    after = lambda *names: xi.replace("    </types>\n", "    </types>\n" + "".join(inc % n for n in names), 1)
+    before = lambda *names: xi.replace("    <types>\n", "".join(inc % n for n in names) + "    <types>\n", 1)
+    at_end = lambda *names: xi.replace("</sbe:messageSchema>", "".join(inc % n for n in names) + "</sbe:messageSchema>", 1)
+    ty = lambda n, p="uint64": pro + '<types>\n    <type name="%s" primitiveType="%s"/>\n</types>\n' % (n, p)
+    m0 = sc.messages[0]
+    free_id = max(int(m.id) for m in sc.messages) + 1
+    msg = lambda n, i: pro + '<sbe:message name="%s" id="%s">\n    <field name="xf_" id="1" type="uint8"/>\n</sbe:message>\n' % (n, i)
+    swap = tn.swapcase() if tn.swapcase() != tn else tn
+    out = []
+
+    def add(rule, where, reject, main, files):
+        out.append((sc, M.Edit(rule, where, reject, None), (main, files)))
+    add("duplicate-name", "type-in-main-and-included-file/include-after-types", True, after("dup_inc.xml"), {"dup_inc.xml": ty(tn)})
+    add("duplicate-name", "type-in-main-and-included-file/include-before-types", True, before("dup_inc.xml"), {"dup_inc.xml": ty(tn)})
+    add("duplicate-name", "type-in-main-and-included-file/same-definition", True, after("dup_inc.xml"),
+        {"dup_inc.xml": pro + "<types>\n" + next(t for t in sc.types if t.name == tn).xml("    ") + "</types>\n"})
+    add("duplicate-name", "type-in-main-and-included-file/case-differs", True, after("dup_inc.xml"), {"dup_inc.xml": ty(swap)})
+    add("duplicate-name", "type-in-two-included-files", True, after("a_inc.xml", "b_inc.xml"),
+        {"a_inc.xml": ty("XfDup_"), "b_inc.xml": ty("XfDup_", "uint8")})
+    add("duplicate-name", "type-in-two-included-files/around-types", True, at_end("b_inc.xml").replace(
+        "    <types>\n", inc % "a_inc.xml" + "    <types>\n", 1), {"a_inc.xml": ty("XfDup_"), "b_inc.xml": ty("xfdup_", "uint8")})
+    add("duplicate-name", "type-in-nested-included-file", True, after("mid_inc.xml"),
+        {"mid_inc.xml": pro + '<xi:include%s href="dup_inc.xml"/>\n' % SP.XI, "dup_inc.xml": ty(tn)})
+    add("valid-name", "fresh-type-in-included-file", False, after("a_inc.xml"), {"a_inc.xml": ty("XfFresh_")})
+    add("valid-name", "fresh-types-in-two-included-files", False, before("a_inc.xml", "b_inc.xml"),
+        {"a_inc.xml": ty("XfFreshA_"), "b_inc.xml": ty("XfFreshB_")})
+    add("duplicate-name", "message-name-in-main-and-included-file", True, at_end("m_inc.xml"), {"m_inc.xml": msg(m0.name, free_id)})
+    add("duplicate-name", "message-name-in-included-file-first", True, after("m_inc.xml"), {"m_inc.xml": msg(m0.name, free_id)})
+    add("duplicate-name", "message-id-in-main-and-included-file", True, at_end("m_inc.xml"), {"m_inc.xml": msg("XfMsg_", m0.id)})
+    add("duplicate-name", "message-in-two-included-files", True, at_end("m_inc.xml", "n_inc.xml"),
+        {"m_inc.xml": msg("XfMsg_", free_id), "n_inc.xml": msg("XfMsg_", free_id + 1)})
+    add("valid-name", "fresh-message-in-included-file", False, at_end("m_inc.xml"), {"m_inc.xml": msg("XfMsg_", free_id)})
+    return out
+
+
+def judge_multi(rep, sc, rule, where, expect_reject, xml, rc, out, gen, multi):
+    """The multi-file form of a schema text (parts moved into XIncluded files, vf/split.py) must get the verdict of the
+    single-file form; a rejection must name the file, line and column the offending line now lives at; an accepted
+    schema must yield the same set of generated files."""
+    mode, sp, mrc, mto, mout, mgen = multi
+    rep.evaluation()
+    rep.count("multi_file_runs")
+    rep.nontrivial("multi", mode, rule, expect_reject)
+    site = "multi-file/%s/%s" % (rule, where.split("@")[0])
+    replay = {"schema": sc.name, "rule": rule, "where": where, "mode": mode, "single_file_xml": xml, "main_xml": sp.main,
+              "included_files": sp.files, "exit": mrc, "output": mout[-1500:], "single_file_exit": rc, "single_file_output": out[-800:]}
+    if mto or mrc not in (0, 1):
+        rep.violation("crash-or-hang", site, "%s [%s at %s, %s]: sbeppc did not terminate normally (rc=%s): %s" % (
+            sc.name, rule, where, mode, mrc, mout[-300:]), replay)
+        return
+    if "runtime error:" in mout or "AddressSanitizer" in mout:
+        rep.violation("sanitizer-report", site, "%s [%s at %s, %s]: %s" % (sc.name, rule, where, mode, mout[-400:]), replay)
+        return
+    if (mrc == 0) != (rc == 0):
+        rep.violation("accept-mismatch" if mrc == 0 else "reject-mismatch", site,
+                      "%s [%s at %s]: the single-file schema was %s but the same text spread over included files (%s) was %s: %s" % (
+                          sc.name, rule, where, "accepted" if rc == 0 else "rejected", mode,
+                          "accepted" if mrc == 0 else "rejected", mout.strip().splitlines()[-1][:200] if mout.strip() else ""), replay)
+        return
+    if mrc == 0:
+        if set(mgen) != set(gen):
+            rep.violation("multi-file-output-differs", "file-set/" + mode,
+                          "%s [%s]: generated files differ between the single-file and the %s form: only-single=%s only-multi=%s" % (
+                              sc.name, rule, mode, sorted(set(gen) - set(mgen))[:5], sorted(set(mgen) - set(gen))[:5]), replay)
+        rep.count("multi_file_outputs_compared", len(gen))
+        rep.count("multi_file_outputs_byte_identical", sum(1 for k in gen if mgen.get(k) == gen[k]))
+        return
+    if mgen:
+        rep.violation("leftover-files", site, "%s [%s at %s, %s]: rejected but %d file(s) left behind" % (
+            sc.name, rule, where, mode, len(mgen)), replay)
+    l1, l2 = SP.first_location(out), SP.first_location(mout)
+    if SP.first_message(out) != SP.first_message(mout) or l1 is None:
+        rep.count("multi_file_diagnostic_text_differs")     # another first error (or an unlocated one): nothing to compare
+        return
+    # the location must name one of the files of this schema and point at the start of an element name in it
+    texts = dict(sp.files)
+    texts["schema.xml"] = sp.main
+    ok = False
+    if l2 is not None and os.path.basename(l2[0]) in texts:
+        ls = texts[os.path.basename(l2[0])].split("\n")
+        if 1 <= l2[1] <= len(ls) and 2 <= l2[2] <= len(ls[l2[1] - 1]):
+            ln = ls[l2[1] - 1]
+            ok = ln[l2[2] - 2] == "<" and (ln[l2[2] - 1].isalpha() or ln[l2[2] - 1] in "?_")
+    rep.count("multi_file_locations_checked")
+    if not ok:
+        rep.violation("wrong-location", "multi-file/" + mode,
+                      "%s [%s at %s]: the diagnostic of the %s form names %s, which is not the start of an element in one of the "
+                      "schema's files %s: %s" % (sc.name, rule, where, mode, "%s:%d:%d" % l2 if l2 else "(no location)",
+                                                 sorted(texts), mout.strip().splitlines()[-1][:200]), replay)
+        return
+    # where the single-file diagnostic can be mapped, the multi-file one normally names the same line; it may name
+    # another one when several places earn the same message (which one sbeppc meets first depends on its hash tables),
+    # so a difference is counted, not judged
+    exp = sp.locate(l1[1]) if l1[0].endswith("schema.xml") else None
+    if exp is None:
+        rep.count("multi_file_location_not_mapped")
+    elif (os.path.basename(l2[0]), l2[1], l2[2]) == (exp[0], exp[1], l1[2]):
+        rep.count("multi_file_locations_identical_to_single_file")
+    else:
+        rep.count("multi_file_locations_elsewhere")
 
 
 def main():
@@ -36,6 +149,7 @@ def main():
         for sc in schemas:
             rng = C.rng_for(rep.seed, "c08", sc.name)
             jobs.append((sc, None, sc.to_xml()))
+            jobs += cross_file_fixtures(sc)
             sweep = M.keyword_sweep(sc) if (sc.name == "prims_le" or (not quick and not sc.name.startswith("rnd"))) else []
             for ed in M.single_edits(sc, rng, per_rule_cap=cap) + sweep:
                 try:
@@ -48,21 +162,42 @@ def main():
                     continue
                 jobs.append((sc, ed, xml))
 
-        def run(t):
-            idx, (sc, ed, xml) = t
-            jd = os.path.join(work, str(idx))
+        modes = ("types", "messages", "both", "nested")
+
+        def sbeppc_run(jd, main_text, files):
             od = os.path.join(jd, "out")
             os.makedirs(od)
             xp = os.path.join(jd, "schema.xml")
-            C.write_file(xp, xml)
+            C.write_file(xp, main_text)
+            for n, t in files.items():
+                C.write_file(os.path.join(jd, n), t)
             rc, o, _, to = C.run([exe, "--output-dir", od, xp], timeout=60, env=build.san_env(), cwd=jd)
             out = o.decode(errors="replace")
-            files = sum(len(fs) for _, _, fs in os.walk(od))
+            gen = {}
+            for root, _, fs in os.walk(od):
+                for f in fs:
+                    p_ = os.path.join(root, f)
+                    gen[os.path.relpath(p_, od)] = C.sha(open(p_, "rb").read())
             shutil.rmtree(jd, ignore_errors=True)
-            return sc, ed, xml, rc, to, out, files
+            return rc, to, out, gen
+
+        def run(t):
+            idx, (sc, ed, xml) = t
+            if not isinstance(xml, str):
+                # a fixture that exists only as several files (cross-file duplicates): judged like any other edit
+                rc, to, out, gen = sbeppc_run(os.path.join(work, str(idx)), xml[0], xml[1])
+                return sc, ed, "<!-- main -->\n" + xml[0] + "".join("<!-- %s -->\n%s" % kv for kv in sorted(xml[1].items())), \
+                    rc, to, out, len(gen), gen, None
+            rc, to, out, gen = sbeppc_run(os.path.join(work, str(idx)), xml, {})
+            # the same text spread over several files (XInclude): same verdict, same diagnostic at the same place
+            sp = SP.split(xml, modes[idx % len(modes)]) if isinstance(xml, str) else None
+            multi = None
+            if sp is not None:
+                multi = (modes[idx % len(modes)], sp) + sbeppc_run(os.path.join(work, "%d.m" % idx), sp.main, sp.files)
+            return sc, ed, xml, rc, to, out, len(gen), gen, multi
 
         by_rule = {}
-        for sc, ed, xml, rc, to, out, files in C.pmap(run, list(enumerate(jobs))):
+        for sc, ed, xml, rc, to, out, files, gen, multi in C.pmap(run, list(enumerate(jobs))):
             rep.evaluation()
             rule = ed.rule if ed else "unedited"
             where = ed.where if ed else "schema"
@@ -99,6 +234,8 @@ def main():
                     rep.sample({"schema": sc.name, "rule": rule, "where": where, "verdict": "rejected", "diagnostic": errs[0][-160:] if errs else ""})
             else:
                 rep.count("accepts")
+            if multi is not None and not (to or rc not in (0, 1)):
+                judge_multi(rep, sc, rule, where, expect_reject, xml, rc, out, gen, multi)
         rep.cov["edits_by_rule"] = by_rule
         rep.cov["schemas"] = [s.name for s in schemas]
     finally:
